@@ -12,6 +12,7 @@ pub fn def() -> PropDef {
         nontrivial,
         functional: true,
         rule: "well-typed programs from the typed grammar of the core fragment (int, uint, double, bool, string, bytes, null, list, map; arithmetic, comparison, logic, conditional, index, membership, select/has, standard functions, comprehension macros), depth <= 6, leaves from boundary-biased literals and typed context variables; compiled by the real parser and evaluated by both sides; non-trivial = the program contains at least one operator, call or macro; distinct = distinct (context, source text)",
+        post: super::no_post,
         exhaustive_note: "random sample of the typed grammar",
     }
 }
